@@ -1392,7 +1392,12 @@ func (cc *ClientConn) awaitOpenSlotForStreamLocked(cs *clientStream) error {
 			return errClientConnUnusable
 		}
 		cc.lastIdle = time.Time{}
-		if cc.currentRequestCountLocked() < int(cc.maxConcurrentStreams) {
+		// Slots reserved for other requests (ReserveNewRequest) are not counted here.
+		// A request holds its reservation until it has acquired reqHeaderMu, which
+		// this request holds while it waits: counting the reservations of the requests
+		// queued behind it would make it wait for requests that are waiting for it.
+		// (With StrictMaxConcurrentStreams reservations are not bounded by the limit.)
+		if len(cc.streams)+cc.pendingResets < int(cc.maxConcurrentStreams) {
 			return nil
 		}
 		cc.pendingRequests++
